@@ -17,5 +17,6 @@ func (c *Container) UnmarshalJSON(data []byte) error {
 	}
 
 	c.compartments = [][]byte{raw}
+	c.offset = 0
 	return nil
 }
